@@ -155,6 +155,14 @@ def C03(ctx):
     for p, s in rare:
         for _ in range(2):
             cases.append(op_mk("b", g.key(), g.form(p), g.form(s), gen="searched: SHA-1 with <16 decimals"))
+    # the far tail of the top-up branch: digests with very few decimal digits (parallel search; larger when a proof
+    # obligation or the translation of this code no longer checks, and in the thorough tier)
+    per = 4_000_000 if (getattr(ctx, "boost", False) or ctx.thorough) else 120_000
+    ext, tried = gens.extreme_pairs(ctx.sub("extreme"), per)
+    ctx.extra["extreme_search"] = {"hashes": tried, "found": len(ext), "fewest_decimal_digits": ext[0][0] if ext else None}
+    for nd, p, s, _h in ext[:200]:
+        for w in ("b", "b", "a"):
+            cases.append(op_mk(w, g.key(), g.form(p), g.form(s), gen="searched: SHA-1 with <= 11 decimals"))
     for _ in range(ctx.n(8000, 80000)):
         k = g.key(); pan = g.digits(R.choice([1, 5, 12, 13, 14, 15, 16, 16, 17, 17, 18, 19, 19])); psn = R.choice([None, "00", g.digits(2)])
         cases.append(op_mk(R.choice("ab"), k, g.form(pan), g.form(psn), gen="random"))
@@ -280,7 +288,7 @@ def C05(ctx):
     cases = []
     for (b, h) in BH_ACCEPT + BH_REJECT:
         for _ in range(ctx.n(12, 60)):
-            k = g.key(); iv = R.choice([bytes(16), R.randbytes(16)])
+            k = g.key(); iv = R.choice([bytes(16), R.randbytes(16), g.structured16()])
             a = R.choice([R.randbytes(2), b"\x00\x00", b"\xff\xff", b"\x00\x01", b"\x00\xff", b"\x01\x00"])
             cases.append(op_tree_sk(k, a, h, b, iv, gen="listed (b,H) incl. the acceptance boundary"))
     # gate grid: every (b,H) with small b, H and those around b**H = 65535
@@ -300,7 +308,7 @@ def C05(ctx):
         cases.append(op_tree_sk(k, a, h, b, iv, gen="same key/IV across tree shapes"))
     # a key and its parity variants under one IV / tree shape (a cache keyed on a parity-normalised key)
     for _ in range(ctx.n(60, 600)):
-        k = R.choice(g.keys[:5] + [bytes(16)]); iv = R.choice([bytes(16), R.randbytes(16)])
+        k = R.choice(g.keys[:5] + [bytes(16)]); iv = R.choice([bytes(16), R.randbytes(16), g.structured16()])
         b, h = R.choice([(4, 8), (16, 4), (256, 2), (2, 16), (65536, 1)])
         a = R.randbytes(2)
         for kk in (k, tools.adjust_key_parity(k), bytes(x ^ 1 for x in k), k):
